@@ -79,10 +79,26 @@ def opTxtWrite (j : Json) : M Json := do
         | .ok s => pure (some (Txt.writeScript nameL edges ((List.finRange n).map fun v => (nm v, s.get v))))
         | .error _ => pure none
       | _ => throw s!"txt_write kind {kind}")
+    -- is the file the library actually wrote in the image of the model's writer?  read it with the
+    -- model's reader and write the result again (records in the order found, zero firings kept)
+    let reprint (t : List Char) : Option (List Char) :=
+      match kind with
+      | "graph" => (Txt.readGraph t).map fun (ns, es) => Txt.writeText (Txt.writeGraph ns es)
+      | "divisor" => (Txt.readDivisor t).map fun (ns, es, rs) => Txt.writeText (Txt.writeDivisor ns es rs)
+      | "orientation" => (Txt.readOrientation t).map fun (ns, es, rs) => Txt.writeText (Txt.writeOrientation ns es rs)
+      | "script" => (Txt.readScript t).map fun (ns, es, rs) =>
+          Txt.writeText (Txt.header ns es ++ Txt.mSCRIPT :: rs.map (Txt.intLine Txt.pFIRING))
+      | _ => none
     match lines with
     | none => pure err
-    | some ls => pure <| Json.mkObj [("text", jStr (Txt.writeText ls)),
-        ("names_ok", Json.bool (nameL.all Txt.nameOK))]
+    | some ls =>
+      let shape := Txt.writeText ls
+      let actual := (j.getObjVal? "actual").toOption.bind fun x => x.getStr?.toOption
+      let inImage := match actual with
+        | some a => (reprint a.toList) == some a.toList
+        | none => false
+      pure <| Json.mkObj [("text", match actual with | some a => (if inImage then Json.str a else jStr shape) | none => jStr shape),
+        ("shape_text", jStr shape), ("names_ok", Json.bool (nameL.all Txt.nameOK))]
 
 /-- reader side: what `read_txt` hands to the constructors for an arbitrary text, or "NONE" when
     the reader itself raises -/
